@@ -1850,8 +1850,14 @@ def _closure_may_not_run(f, s):
                     lo = sym.operand(rv["o"][rv["fields"].index("start")])
                     hi = sym.operand(rv["o"][rv["fields"].index("end")])
                     if lo.is_const() and (lo.const_value() or 0) >= 1 and not hi.is_const():
+                        # an object one of whose dimensions is the trip count itself is empty when the body does not run
+                        if any((hi - lo) == d for d in _CUR_TAKE_DIMS):
+                            return False
                         return True
     return False
+
+
+_CUR_TAKE_DIMS = []
 
 
 def walk_object(p, f, path, start_pos, is_obj, is_obj_place_root, summaries, depth=0):
@@ -1990,6 +1996,9 @@ def param_summary(p, cf, pi, summaries, depth=0):
     return out
 
 
+_ZERO_TRIPS = {}
+
+
 def _zero_trip_paths(f, g):
     """returning paths on which exactly the loops `for v in lo..hi` with a constant lo >= 1 are skipped (all other loops traversed as usual)"""
     from . import wr
@@ -2000,6 +2009,7 @@ def _zero_trip_paths(f, g):
     flow = Flow(f)
     sym = Sym(f, flow)
     skippable = {}
+    trips = {}
     for L in loops:
         for b in sorted(L["body"]):
             t = f.blocks[b]["t"]
@@ -2012,6 +2022,7 @@ def _zero_trip_paths(f, g):
                         entry = [tb for val, tb in tsw["ts"] if val == 1]
                         if entry:
                             skippable[L["header"]] = (L, entry[0])
+                            trips[L["header"]] = rg[1] - rg[0]
                 break
     if not skippable:
         return []
@@ -2022,6 +2033,7 @@ def _zero_trip_paths(f, g):
         skipped = [h for h, (L, e) in skippable.items() if h in s and e not in s]
         if not skipped:
             continue
+        _ZERO_TRIPS[tuple(pth)] = [trips[h] for h in skipped]
         # every other loop on the path is entered
         ok = True
         for L in loops:
@@ -2090,9 +2102,15 @@ def sc3(p, res):
             n_takes += 1
             verdicts = set()
             witness = None
+            dsym = Sym(f, Flow(f))
+            del _CUR_TAKE_DIMS[:]
+            _CUR_TAKE_DIMS.extend(dsym.operand(a) for a in tt["a"][1:] if a[0] in ("c", "m", "k"))
             for path in paths:
                 if tb not in path:
                     continue
+                zt = _ZERO_TRIPS.get(tuple(path))
+                if zt and any(tr == d for tr in zt for d in _CUR_TAKE_DIMS):
+                    continue  # the object has as many columns / limbs as the skipped loop has iterations: it is empty on this path
                 pos = path.index(tb)
                 v = walk_object(p, f, path, pos + 1, lambda rr, tb=tb: any(r[0] == "call" and r[1] == tb and r[2][:1] == ("0",) for r in rr), None, summaries)
                 if v[0] in ("read", "accumulate", "needs-init", "partial") and not _path_consts_feasible(p, f, path):
